@@ -105,3 +105,54 @@ package qbft
 //@ loop 1 invariant forall(k, 0, $i, frc[k].Round() >= rmin)
 //@ loop 1 invariant $i == 0 ==> rmin == 9223372036854775807
 //@ loop 1 invariant $i > 0 ==> exists(k, 0, $i, frc[k].Round() == rmin)
+
+//@ spec func allNull(s []Msg) bool = forall(k, 0, len(s), s[k].PreparedRound() == 0 && s[k].PreparedValue() == zero(V))
+//@ spec func noHigherPr(s []Msg, pr int64) bool = forall(k, 0, len(s), s[k].PreparedRound() <= pr)
+//@ spec func hasPrepared(s []Msg, pr int64, pv V) bool = exists(k, 0, len(s), s[k].PreparedRound() == pr && s[k].PreparedValue() == pv)
+
+//@ func containsJustifiedQrc
+//@ props C02 C03 C04
+//@ pure
+//@ nopanic
+//@ requires nodesOK(d)
+//@ ensures r1 ==> len(filterMsgs(justification, MsgRoundChange, round, nil, nil, nil)) >= quorum(d)
+//@ ensures r1 ==> (allNull(filterMsgs(justification, MsgRoundChange, round, nil, nil, nil)) && r0 == zero(V)) ||
+//@+   (res(2, getSingleJustifiedPrPv(d, justification)) && r0 == res(1, getSingleJustifiedPrPv(d, justification)) &&
+//@+    noHigherPr(filterMsgs(justification, MsgRoundChange, round, nil, nil, nil), res(0, getSingleJustifiedPrPv(d, justification))) &&
+//@+    hasPrepared(filterMsgs(justification, MsgRoundChange, round, nil, nil, nil), res(0, getSingleJustifiedPrPv(d, justification)), res(1, getSingleJustifiedPrPv(d, justification))))
+//@ ensures len(filterMsgs(justification, MsgRoundChange, round, nil, nil, nil)) >= quorum(d) && allNull(filterMsgs(justification, MsgRoundChange, round, nil, nil, nil)) ==> r1
+//@ ensures len(filterMsgs(justification, MsgRoundChange, round, nil, nil, nil)) >= quorum(d) && res(2, getSingleJustifiedPrPv(d, justification)) &&
+//@+   noHigherPr(filterMsgs(justification, MsgRoundChange, round, nil, nil, nil), res(0, getSingleJustifiedPrPv(d, justification))) &&
+//@+   hasPrepared(filterMsgs(justification, MsgRoundChange, round, nil, nil, nil), res(0, getSingleJustifiedPrPv(d, justification)), res(1, getSingleJustifiedPrPv(d, justification))) ==> r1
+//@ canary r1
+//@ loop 1 invariant allNull
+//@ loop 1 invariant forall(k, 0, $i, qrc[k].PreparedRound() == 0 && qrc[k].PreparedValue() == zero(V))
+//@ loop 2 invariant forall(k, 0, $i, qrc[k].PreparedRound() <= pr)
+//@ loop 2 invariant found <==> exists(k, 0, $i, qrc[k].PreparedRound() == pr && qrc[k].PreparedValue() == pv)
+
+//@ func isJustifiedPrePrepare
+//@ props C02 C03 C04
+//@ pure
+//@ nopanic
+//@ requires nodesOK(d)
+//@ requires msg.Type() == MsgPrePrepare
+//@ ensures result <==> d.IsLeader(instance, msg.Round(), msg.Source()) && msg.Value() != zero(V) &&
+//@+   (msg.Round() == 1 || msg.Round() == compareFailureRound+1 ||
+//@+    (res(1, containsJustifiedQrc(d, msg.Justification(), msg.Round())) &&
+//@+     (res(0, containsJustifiedQrc(d, msg.Justification(), msg.Round())) == zero(V) || msg.Value() == res(0, containsJustifiedQrc(d, msg.Justification(), msg.Round())))))
+//@ canary result
+
+//@ func isJustified
+//@ props C02 C03 C04
+//@ nopanic
+//@ requires nodesOK(d)
+//@ requires msg.Type() > MsgUnknown && msg.Type() < msgSentinel
+//@ ensures msg.Type() == MsgPrePrepare ==> result == isJustifiedPrePrepare(d, instance, msg, compareFailureRound)
+//@ ensures msg.Type() == MsgRoundChange ==> result == isJustifiedRoundChange(d, msg)
+//@ ensures msg.Type() == MsgDecided ==> result == isJustifiedDecided(d, msg)
+//@ ensures msg.Type() == MsgPrepare || msg.Type() == MsgCommit ==> result
+
+//@ func (t MsgType) Valid
+//@ props C05
+//@ pure
+//@ ensures result <==> t > 0 && t < 6
